@@ -30,6 +30,12 @@ if [ $TESTS = 1 ]; then
     if (cd $LAB/repo && timeout 600 cargo test --workspace --no-fail-fast --offline >$LAB/out/tests.log 2>&1); then echo "TESTS pass"; else echo "TESTS FAIL"; fi
 fi
 (cd $LAB/sim && CARGO_NET_OFFLINE=true cargo build --release --offline >$LAB/out/build.log 2>&1) || { echo "BUILD-FAILED"; tail -20 $LAB/out/build.log; exit 2; }
+# the unoptimised build that repeats part of the totality batches (only if this version of the simulator has one)
+if grep -q "profile.dev" $LAB/sim/Cargo.toml; then
+    (cd $LAB/sim && CARGO_NET_OFFLINE=true cargo build --offline >$LAB/out/build-dev.log 2>&1) || { echo "BUILD-FAILED (dev)"; tail -20 $LAB/out/build-dev.log; exit 2; }
+else
+    rm -rf $LAB/sim/target/debug
+fi
 for P in "$@"; do
     VERIF_ROOT=$LAB/out ${VERIF_SEED:+VERIF_SEED=$VERIF_SEED} $LAB/sim/target/release/sml-sim check $P quick >$LAB/out/$P.log 2>&1
     echo "$P $? $(grep -m1 -o 'violation \[[^]]*\]' $LAB/out/$P.log)"
